@@ -92,7 +92,8 @@ PROPERTIES["C18"] = {
 
 # ---------------------------------------------------------------- chains (C06, and the chain parts of C05/C07/C04)
 
-CHAINS_HARNESS = _h(("internal/zzverif/hchains/zz_verif_chains.go", "harness/hchains/zz_verif_chains.go"))
+CHAINS_HARNESS = _h(("internal/zzverif/hchains/zz_verif_chains.go", "harness/hchains/zz_verif_chains.go"),
+                    ("internal/zzverif/hchains/zz_verif_c03.go", "harness/hchains/zz_verif_c03.go"))
 
 PROPERTIES["C06"] = {
     "level_text": "Bounded symbolic execution + SMT of each language's REAL pass chain ((*Language).CompilerPasses() of go/java/php/python/typescript, run through "
@@ -190,4 +191,18 @@ PROPERTIES["C17"] = {
     "bounds": {"builders": "3 (derived by FromAST), Foo: 2 fields x 7 kinds", "rules": "11 option actions + 5 builder rules, one at a time, selector names symbolic incl. case variants and absent names"},
     "runs": [Run("veneers", ["./internal/zzverif/hveneers"], VENEERS_HARNESS, ["VerifC17OptionRule", "VerifC17BuilderRule"],
                  "internal/zzverif/hveneers", test_pkg_name="hveneers", needs_leaf=True)],
+}
+
+
+PROPERTIES["C03"] = {
+    "level_text": "Bounded symbolic execution + SMT with the map-iteration order made symbolic: at every `range` over a map the solver-controlled engine forks over every remaining "
+                  "entry (all n! orders the Go specification permits, a superset of what one runtime does). Self-composition: each language's real pass chain, "
+                  "Schemas.Consolidate and fields_set_default are run twice on clones of one symbolic input and the two results must be deep-equal.",
+    "level_note": "Bounds: T(1) main object + two struct objects with one or two constant discriminator candidates; maps of <=3 entries. Claimed up to the IR handed to the jennies: "
+                  "map-range sites inside jennies/template helpers feed text/template and are outside (listed as uncovered). A counterexample is confirmed natively by repeating the "
+                  "run (fresh maps) until two different results are observed.",
+    "bounds": {"orders": "every permutation of every ranged map on the path (maps <= 3 entries)", "inputs": "T(1) main object, 2 candidate discriminator fields, 3 schemas for Consolidate, 2 colliding defaults"},
+    "runs": [Run("chains", ["./internal/zzverif/hchains"], CHAINS_HARNESS,
+                 ["VerifC03Go", "VerifC03Java", "VerifC03PHP", "VerifC03Python", "VerifC03TypeScript", "VerifC03Consolidate", "VerifC03FieldsSetDefault"],
+                 "internal/zzverif/hchains", test_pkg_name="hchains", needs_leaf=True, repeat=400)],
 }
